@@ -87,10 +87,12 @@ def analyse(ctx, prog):
     I.TOP_INT = frozenset(I.K) | {"NEG", "POS"}
     p = {x["name"]: ("v", F.gdid(x["did"])) for x in F.params}
     entries = []
-    for shape_label, st0 in A.shape_states(prog, ("RUN",), combos="min"):
+    for shape_label, st0 in A.shape_states(prog, ("RUN", "EXITED"), combos="min"):
         for layout in (("H",), ("N", "H"), ("H", "N")):
             for mask in range(16):
                 st = st0.copy()
+                if st.mem.get(A.fcell("status"), 0) is None:
+                    st.mem[A.fcell("status")] = I.nonneg()      # exited: the cached status
                 st.mem[p["sources"]] = fs(("addr", ("i", SRC, 0)))
                 st.mem[p["num_sources"]] = fs(len(layout))
                 st.mem[p["timeout"]] = fs(("sym", "T"))
@@ -273,3 +275,7 @@ def check(ctx):
     prog = ctx.prog("posix-mt")
     poll_rules(ctx, prog)
     pipe_poll_rules(ctx, prog)
+    # 'no requested stream can still be polled' is decided by comparing pipe fields with the invalid marker: a stream that was
+    # closed (by the closed-pipe path of read/write, by reproc_close) must therefore hold the marker, whatever close() returned
+    from . import c05
+    c05.check_closer(ctx, prog)
